@@ -249,6 +249,17 @@ def verus_unit(name, cfg, repo, build, tier):
             p.update(status='undecided', reason='resource limit exceeded after retry with 10x rlimit: ' + '; '.join(p['rlimit'][:3]))
     r.update(p)
     r['cmd'] = run['cmd']
+    # an annotation INSIDE an edited function's closure: the inserted `ensures` of a closure was written for the old closure text.
+    # When the function was edited (re-anchored) and such an annotation fails, this is not evidence against the code, and since
+    # Verus assumes a closure's `ensures` at its call sites, nothing else reported for that function can be trusted either: every
+    # diagnostic of that function is dropped and the properties it serves are UNDECIDED in this run (never a violation).
+    stale_blocks = {d['block'] for d in r['diags'] if d.get('block') is not None and 'closure' in d['message'] and blocks[d['block']]['status'] != 'identical'}
+    if stale_blocks:
+        r['diags'] = [d for d in r['diags'] if d.get('block') not in stale_blocks]
+        for bi in sorted(stale_blocks):
+            bl = blocks[bi]
+            r['stubbed'].append(dict(function=bl['owner'] + '::' + bl['name'], tags=sorted(bl.get('all_tags', bl['tags'])),
+                                     reason='an inserted closure annotation no longer fits the edited function'))
     # a loop of these functions was restructured (no `decreases` fits any more): the inserted invariants were written for the
     # old loop form, so a failed obligation there is not evidence against the code: undecided, never a violation
     if r['status'] == 'ok' and r['termination_unchecked']:
